@@ -14,23 +14,23 @@ CHECKS = {
    note=TRUST,
    technique="static analysis: field-taint to overflow-capable MIR operations over the call graph + must-pass-through"),
  "C03": dict(level="other",
-   text="Decides the lockstep and ownership structure without which the four views (UTXO set, by-height index, per-block flag, wallet) cannot describe the same chain: wind_chain (after an accepting validate) and unwind_chain (on every continuing path) update block ring, UTXO set, wallet and blockchain exactly once each with the same constant direction; a UtxoSet is mutated only by the wind/unwind primitives and two named exceptions, and those primitives are called only along wind/unwind; the longest-chain index and in_longest_chain are written only by the table's bodies. Does not decide exactness of wind/unwind for every fork shape and delivery order (value and history level). One genuine defect (the out-of-order branch of add_block rewrites the index without unwinding the ledger) is a known finding with an executed witness.",
+   text="Decides the lockstep and ownership structure without which the four views (UTXO set, by-height index, per-block flag, wallet) cannot describe the same chain: wind_chain (after an accepting validate) and unwind_chain (on every continuing path) update block ring, UTXO set, wallet and blockchain exactly once each with the same constant direction; a UtxoSet is mutated only by the wind/unwind primitives and two named exceptions, and those primitives are called only along wind/unwind; the longest-chain index and in_longest_chain are written only by the table's bodies. Does not decide exactness of wind/unwind for every fork shape and delivery order (value and history level). One genuine defect (the out-of-order branch of add_block rewrites the index without unwinding the ledger) is a known finding with an executed witness. Also decided: the block applied in a wind/unwind step was upgraded to a full block in the same step, and the pruning primitive (Slip::delete <- Transaction::delete <- Block::delete) is called only from the purge of old blocks.",
    note=TRUST,
    technique="static analysis: exactly-once/must-pass path rules over the MIR CFG, type- and field-based who-may-mutate analysis, call-graph caller sets"),
  "C04": dict(level="other",
-   text="Decides the insert/undo pairing of add_block: after the candidate block was inserted into the block ring and into Blockchain.blocks, no exit with AddBlockResult::FailedNotValid is reachable without passing a call whose callee (transitively) removes it from both. Necessary for 'stored blocks exactly as they were'. Explicitly NOT decided: termination of the Wind/Unwind loop in Blockchain::validate (needs a termination argument over the indices returned by wind_chain/unwind_chain, not a shape rule) and restoration of ledger state after a mid-reorganisation failure.",
+   text="Decides the insert/undo pairing of add_block: after the candidate block was inserted into the block ring and into Blockchain.blocks, no exit with AddBlockResult::FailedNotValid is reachable without passing a call whose callee (transitively) removes it from both. Necessary for 'stored blocks exactly as they were'. Explicitly NOT decided: termination of the Wind/Unwind loop in Blockchain::validate (needs a termination argument over the indices returned by wind_chain/unwind_chain, not a shape rule) and restoration of ledger state after a mid-reorganisation failure. Also decided: the undo of a rejected block reaches no UtxoSet mutator.",
    note=TRUST,
    technique="static analysis: path exploration to tagged exits over the MIR CFG + callee summaries (field removal, ring deletion)"),
  "C05": dict(level="other",
-   text="Decides the gating and 'strictly longer' structure of fork choice: the candidate is treated as longest only behind a true is_new_chain_the_longest_chain and the reorganisation starts only when that flag is set; a failing golden-ticket density check leads only to (false, _); every accepting path of is_new_chain_the_longest_chain passes an edge implying len(new) > len(old) (or the first-block exit) and old burn fee <= new burn fee; the density rule reads MIN_GOLDEN_TICKETS_NUMERATOR/DENOMINATOR. Does not decide monotonic tip height, the window arithmetic or behaviour under delivery orders.",
+   text="Decides the gating and 'strictly longer' structure of fork choice: the candidate is treated as longest only behind a true is_new_chain_the_longest_chain and the reorganisation starts only when that flag is set; a failing golden-ticket density check leads only to (false, _); every accepting path of is_new_chain_the_longest_chain passes an edge implying len(new) > len(old) (or the first-block exit) and old burn fee <= new burn fee; the density rule reads MIN_GOLDEN_TICKETS_NUMERATOR/DENOMINATOR. Does not decide monotonic tip height, the window arithmetic or behaviour under delivery orders. Also decided: the density window is anchored at the candidate tip (new_chain[0]) and both burn-fee accumulators are cumulative (every update adds to the previous value).",
    note=TRUST,
    technique="static analysis: must-pass-through with ordering-comparison orientation, verdict gating, constant provenance"),
  "C06": dict(level="other",
-   text="Decides the structural part of the identity binding on every path: each accepting path of Block::validate (outside the SPV-mode and ghost exits) passes the equal edge of merkle_root vs the root recomputed from the carried transactions and the true edge of the creator-signature check; the signed bytes read merkle_root/creator/id/timestamp/previous_block_hash, pre_hash = hash(signed bytes), hash = hash(previous_block_hash ++ pre_hash); verify_block forwards a fetched block only on the equal edges of the advertised id/hash comparisons. Does not decide collision resistance of the merkle construction.",
+   text="Decides the structural part of the identity binding on every path: each accepting path of Block::validate (outside the SPV-mode and ghost exits) passes the equal edge of merkle_root vs the root recomputed from the carried transactions and the true edge of the creator-signature check; the signed bytes read merkle_root/creator/id/timestamp/previous_block_hash, pre_hash = hash(signed bytes), hash = hash(previous_block_hash ++ pre_hash); verify_block forwards a fetched block only on the equal edges of the advertised id/hash comparisons. Does not decide collision resistance of the merkle construction. Also decided: a merkle parent hashes left ++ right with no ordering or selection between the children; the merkle comparison is required in both validate_against_utxo modes.",
    note=TRUST,
    technique="static analysis: must-pass-through (edge-deletion reachability with boolean path sensitivity) over the MIR CFG, operand provenance by expression chasing"),
  "C07": dict(level="other",
-   text="Decides that producer and validator are siblings of one computation: Block::create and Block::validate obtain consensus values from the same callee; Mempool::can_bundle_block and Block::validate compute the required work with the same function and the same argument provenance (parent burn fee, new block's timestamp, parent timestamp, heartbeat); for each of the 24 header fields the validator compares with a consensus value, the producer fills that field from the same consensus value, and the derived treasury/graveyard formulas are the same linear forms over cv.* and parent fields. Does not decide equality of the computed values across nodes and inputs (floating point, rebroadcast sets, lottery) - the substance of C07 is dynamic.",
+   text="Decides that producer and validator are siblings of one computation: Block::create and Block::validate obtain consensus values from the same callee; Mempool::can_bundle_block and Block::validate compute the required work with the same function and the same argument provenance (parent burn fee, new block's timestamp, parent timestamp, heartbeat); for each of the 24 header fields the validator compares with a consensus value, the producer fills that field from the same consensus value, and the derived treasury/graveyard formulas are the same linear forms over cv.* and parent fields. Does not decide equality of the computed values across nodes and inputs (floating point, rebroadcast sets, lottery) - the substance of C07 is dynamic. Also decided: nothing is added to the block's transaction list after the producer's own double-spend scan.",
    note=TRUST,
    technique="static analysis: sibling cross-check of field/consensus-value correspondence and argument provenance extracted from MIR"),
  "C18": dict(level="other",
@@ -42,15 +42,15 @@ CHECKS = {
    note=TRUST,
    technique="static analysis: must-pass-through over the MIR CFG with operand-provenance predicates; verdict gating"),
  "C13": dict(level="other",
-   text="Decides one necessary clause: the rebroadcast set is committed and compared - in consensus mode every accepting path of Block::validate passes cv.rebroadcast_hash == self.rebroadcast_hash and cv.total_rebroadcast_slips == self.total_rebroadcast_slips, and Block::generate accumulates both header values only under the ATR arm of the match on transaction type. Does not decide which outputs are eligible, ownership, amounts, or expiry across histories.",
+   text="Decides one necessary clause: the rebroadcast set is committed and compared - in consensus mode every accepting path of Block::validate passes cv.rebroadcast_hash == self.rebroadcast_hash and cv.total_rebroadcast_slips == self.total_rebroadcast_slips, and Block::generate accumulates both header values only under the ATR arm of the match on transaction type. Does not decide which outputs are eligible, ownership, amounts, or expiry across histories. Also decided: every ATR-typed transaction is folded into the rebroadcast hash, and consensus-value code looks blocks up by height only through the longest-chain index.",
    note=TRUST,
    technique="static analysis: must-pass-through over the MIR CFG; control-dependence of field writes on an enum arm"),
  "C09": dict(level="other",
-   text="Decides writer/reader layout agreement of the hand-written codecs (the necessary condition that all-zero round-trip tests cannot see): for 11 codec pairs (Slip, Hop, Transaction, Block, GoldenTicket, HandshakeChallenge, HandshakeResponse, BlockchainRequest, ApiMessage, Version, Wallet disk form) the ordered (field, width) segments of the writer - widths taken from the compiler's types of the written expressions - and the constant ranges from which the reader initialises each field must coincide on the fixed-layout prefix; SLIP_SIZE/HOP_SIZE/TRANSACTION_SIZE/BLOCK_HEADER_SIZE equal that prefix; the Message tag table is injective and each decode arm builds the variant written with that tag. Does not decide value equality of variable parts, hash/signature preservation, GhostChainSync's count-scaled layout or the text formats.",
+   text="Decides writer/reader layout agreement of the hand-written codecs (the necessary condition that all-zero round-trip tests cannot see): for 11 codec pairs (Slip, Hop, Transaction, Block, GoldenTicket, HandshakeChallenge, HandshakeResponse, BlockchainRequest, ApiMessage, Version, Wallet disk form) the ordered (field, width) segments of the writer - widths taken from the compiler's types of the written expressions - and the constant ranges from which the reader initialises each field must coincide on the fixed-layout prefix; SLIP_SIZE/HOP_SIZE/TRANSACTION_SIZE/BLOCK_HEADER_SIZE equal that prefix; the Message tag table is injective and each decode arm builds the variant written with that tag. Does not decide value equality of variable parts, hash/signature preservation, GhostChainSync's count-scaled layout or the text formats. Also decided: Transaction::get_serialized_size is the same linear form as the writer's length; the block decoder adds no value-domain threshold of its own on values decoded from a carried transaction's header.",
    note=TRUST,
    technique="static analysis: extraction and comparison of writer and reader layout tables from MIR (sibling-implementation cross-check)"),
  "C10": dict(level="other",
-   text="Decides panic-freedom of slicing / indexing / unwrapping / asserting on input bytes in the 15 decoder entry points and the byte-consuming callees they reach: every such operation is an obligation discharged by linear length facts from dominating tests (len < e => exit, len != c => exit, is_empty), loop-index facts of Range iteration, integer-division facts and constant-width try_into, with callees analysed in the caller's context (constant length or provable lower bound) and is_err()/is_ok() variant knowledge for unwraps. Decoders that cannot express failure are judged through all their call sites. Does not decide the allocation bound or arithmetic overflow (64-bit usize assumed). Three genuine defects (decoders that cannot reject) are recorded as known findings.",
+   text="Decides panic-freedom of slicing / indexing / unwrapping / asserting on input bytes in the 15 decoder entry points and the byte-consuming callees they reach: every such operation is an obligation discharged by linear length facts from dominating tests (len < e => exit, len != c => exit, is_empty), loop-index facts of Range iteration, integer-division facts and constant-width try_into, with callees analysed in the caller's context (constant length or provable lower bound) and is_err()/is_ok() variant knowledge for unwraps. Decoders that cannot express failure are judged through all their call sites. Does not decide the allocation bound or arithmetic overflow (64-bit usize assumed). Three genuine defects (decoders that cannot reject) are recorded as known findings. Also decided: allocations sized by a decoded value (with_capacity / reserve / vec![x; n]) are bounded by a small multiple of the input length; string slicing and the TryFrom<String> parsers reached through try_into are covered.",
    note=TRUST + " The linear prover (analysis/linear.py) is a sound-by-construction combination search: it only ever subtracts non-negative multiples of available facts.",
    technique="static analysis: available-facts dataflow of linear length inequalities (ABCD-style bounds-check elimination) over MIR, context-sensitive over decoder callees"),
  "C11": dict(level="other",
@@ -58,7 +58,7 @@ CHECKS = {
    note=TRUST,
    technique="static analysis: call-graph reachability from handler entry points + variant-knowledge dataflow for unwrap sites + post-dominating panic detection on enum match arms"),
  "C14": dict(level="other",
-   text="Decides that the pool and its reservation index move together on every path: each site removing pooled transactions releases their inputs in utxo_map before any success exit (a loop over the removed transactions counts from its header; a retain-style closure may release inside), each inserting site reserves them, and bundle_block has no failure exit between draining the pool and returning. Necessary for 'an unspent output that no pooled transaction spends can always be spent' and for the bundling clause; does not decide pool/ledger consistency over interleavings. One genuine defect (non-atomic bundling on Block::create failure) is recorded as a known finding.",
+   text="Decides that the pool and its reservation index move together on every path: each site removing pooled transactions releases their inputs in utxo_map before any success exit (a loop over the removed transactions counts from its header; a retain-style closure may release inside), each inserting site reserves them, and bundle_block has no failure exit between draining the pool and returning. Necessary for 'an unspent output that no pooled transaction spends can always be spent' and for the bundling clause; does not decide pool/ledger consistency over interleavings. One genuine defect (non-atomic bundling on Block::create failure) is recorded as a known finding. Also decided: a reservation is released only for a transaction that left the pool; the cached routing work is reset or adjusted at every pool mutation; the pool is re-validated against the ledger on every path of add_block_success / remove_block_transactions.",
    note=TRUST,
    technique="static analysis: field-mutation sites (incl. &mut passed to callees and closure upvars) + path exploration to exits over the MIR CFG"),
  "C17": dict(level="other",
@@ -66,11 +66,11 @@ CHECKS = {
    note=TRUST,
    technique="static analysis: who-may-write field analysis, dominance by a verified edge, path exploration to Ok exits"),
  "C19": dict(level="other",
-   text="Decides the structural clause that balance and unspent list are co-mutated: every body that inserts into / removes from / clears Wallet.unspent_slips also adds to / subtracts from / zeroes available_balance and vice versa (closures' captured fields resolved), and nothing outside impl Wallet can write the balance. Necessary for 'available balance equals the sum of the outputs listed as unspent'; does not decide amounts, agreement with the ledger or event orders.",
+   text="Decides the structural clause that balance and unspent list are co-mutated: every body that inserts into / removes from / clears Wallet.unspent_slips also adds to / subtracts from / zeroes available_balance and vice versa (closures' captured fields resolved), and nothing outside impl Wallet can write the balance. Necessary for 'available balance equals the sum of the outputs listed as unspent'; does not decide amounts, agreement with the ledger or event orders. Also decided: loops that spend slips subtract the amount and queue the removal together in each iteration, and no path subtracts from the balance without removing from the unspent list.",
    note=TRUST,
    technique="static analysis: per-body field co-mutation over MIR (field-mutation classification, arithmetic direction of balance writes)"),
  "C01": dict(level="other",
-   text="Decides the structural clause 'validation gates acceptance' on every path: each verdict (Transaction/Slip/Block/Blockchain::validate, signature and golden-ticket checks) computed on the acceptance chain, when it rejects, reaches no accept outcome of its consumer; nothing inserts into the pool around validation; Transaction::validate's accept paths for non-privileged types pass the signature check. A necessary condition of every clause of C01 - not the behaviour: it does not decide that the verdict functions compute the right answer.",
+   text="Decides the structural clause 'validation gates acceptance' on every path: each verdict (Transaction/Slip/Block/Blockchain::validate, signature and golden-ticket checks) computed on the acceptance chain, when it rejects, reaches no accept outcome of its consumer; nothing inserts into the pool around validation; Transaction::validate's accept paths for non-privileged types pass the signature check. A necessary condition of every clause of C01 - not the behaviour: it does not decide that the verdict functions compute the right answer. Also decided: the in-block double-spend scan checks and records each spent key individually (bulk insertion is reported).",
    note=TRUST,
    technique="static analysis: path-sensitive verdict-gating over MIR CFGs + who-may-write field analysis"),
 }
